@@ -1021,7 +1021,7 @@ def _run(ctx):
     rng = ctx.rng('c04')
 
     # --- 1. pad / crop / round trip over per-axis cells -------------------------------------------
-    N = ctx.pick(16, 64)
+    N = ctx.pick(16, 56)
     cells = [(i, o) for i in range(1, N + 1) for o in range(i, N + 1)]
     modes = ['constant', 'edge', 'reflect', 'symmetric', 'wrap']
     fills = [0, 1, -3.5, float('nan')]
